@@ -370,12 +370,12 @@ _SHAPES = ('shared', 'cycle', 'self_ref', 'empty_array', 'stub', 'stub_in_array'
            'non_ascii', 'ascii_rejected', 'mode:ascii', 'mode:format', 'mode:silent')
 
 SUBCHECKS = [
-    Sub('binary', execute_binary, strategy=strategy_binary, quick=3000, thorough=80000, floor=300, quick_shards=5,
+    Sub('binary', execute_binary, strategy=strategy_binary, quick=3000, thorough=70000, floor=300, quick_shards=5,
         must_hit=_SHAPES + ('time_rejected',) + _cells_must(
             ['bin1', 'bin2', 'bin3', 'bin4', 'bin5'], skip={('time', 'bin1'), ('time', 'bin2')})),
     Sub('kv2', execute_kv2, strategy=strategy_kv2, quick=1200, thorough=40000, floor=100, quick_shards=4,
         must_hit=_SHAPES + ('cull_uuid_dropped',) + _cells_must(['kv2n', 'kv2f'])),
-    Sub('binary-decoder', execute_decoder, strategy=strategy_decoder, quick=2400, thorough=60000, floor=200,
+    Sub('binary-decoder', execute_decoder, strategy=strategy_decoder, quick=2400, thorough=50000, floor=200,
         quick_shards=4,
         must_hit=('v1', 'v2', 'v3', 'v4', 'v5', 'stub', 'stub_in_array', 'null_in_array', 'non_ascii')
         + _cells_must(['bin5'])),
